@@ -819,6 +819,7 @@ fn variants_c19(c: &Case, thorough: bool) -> Vec<Case> {
 fn check_c19(case: &Case, out: &Outcome, h: &Hist, _g: &mut Group) -> Vec<Violation> {
     let mut v = oracle::common(case, out, h);
     v.extend(flow::drop_rules(case, out, h));
+    v.extend(oracle::task_memory(case, out, h));
     v
 }
 fn nt_c19(_c: &Case, out: &Outcome, h: &Hist) -> bool {
@@ -1248,6 +1249,7 @@ fn check_c13(case: &Case, out: &Outcome, h: &Hist, _g: &mut Group) -> Vec<Violat
         if let Some(Comp::Task(t)) = case.comp.as_ref() {
             v.extend(ocomp::task_rules(t, &out.log));
         }
+        v.extend(oracle::task_memory(case, out, h));
     }
     v
 }
